@@ -2,8 +2,8 @@
 # dev helper: tools/goal.sh <file.v relative to coq/> <line>  -> prints the goals after that line
 f=$1; n=$2
 cd /verif/coq
-tmp=$(dirname $f)/Tmp_goal_$$.v
+mkdir -p .tmp; tmp=.tmp/Tmp_goal_$$.v
 head -n $n $f > $tmp
 echo "Show. " >> $tmp
 timeout 120 coqc -Q model Compio.Model -Q thm Compio.Thm -Q prop Compio.Prop -Q gen Compio.Gen $tmp 2>&1 | grep -v "^File\|Error: There are pending proofs\|^$" | head -${3:-60}
-rm -f $(dirname $f)/Tmp_goal_$$.* $(dirname $f)/.Tmp_goal_$$.aux
+rm -f .tmp/Tmp_goal_$$.* .tmp/.Tmp_goal_$$.aux
